@@ -580,3 +580,40 @@ def class_ir(text: str, qualified: str, enum_value) -> str:
     deargs = " ".join(k.arg for k in res.value.keywords)
     init_s = rec.init_stmts(init.body) if init is not None else "[]"
     return f"oldlen {_b(oldlen)} ;; ser {ser_s} ;; de {de_s} ;; deargs [{deargs}] ;; init {init_s}"
+
+
+def enum_ir(text: str, name: str) -> str:
+    """`Name under?` is not in the text; members in emitted order: `PyName=ordinal,...` (the form of `gen enums`)"""
+    tree = ast.parse(text)
+    cls = _find_class(tree, name)
+    if cls is None:
+        raise Unrecognised("enum " + name + " not found")
+    bases = [ast.unparse(b) for b in cls.bases]
+    meta = [ast.unparse(k.value) for k in cls.keywords if k.arg == "metaclass"]
+    if bases != ["IntEnum"] or meta != ["ProtocolEnumMeta"]:
+        raise Unrecognised(f"enum {name}: bases {bases} metaclass {meta}")
+    members = []
+    for s in cls.body:
+        if isinstance(s, ast.Expr) and isinstance(s.value, ast.Constant) and isinstance(s.value.value, str):
+            continue
+        if isinstance(s, ast.Assign) and len(s.targets) == 1 and isinstance(s.targets[0], ast.Name) and _Rec.const_int(s.value) is not None:
+            members.append(f"{s.targets[0].id}={_Rec.const_int(s.value)}")
+            continue
+        raise Unrecognised(f"enum {name}: statement {ast.unparse(s)[:80]}")
+    return ",".join(members)
+
+
+def packet_ir(text: str, qualified: str) -> str:
+    """`Family.Member Action.Member` returned by the emitted `family()` / `action()` static methods"""
+    tree = ast.parse(text)
+    cls = _find_class(tree, qualified)
+    if cls is None:
+        raise Unrecognised("class " + qualified + " not found")
+    out = []
+    for m in ("family", "action"):
+        f = _method(cls, m)
+        body = [s for s in (f.body if f else []) if not (isinstance(s, ast.Expr) and isinstance(s.value, ast.Constant))]
+        if f is None or len(body) != 1 or not isinstance(body[0], ast.Return) or _Rec.dotted(body[0].value) is None:
+            raise Unrecognised(f"{qualified}.{m}()")
+        out.append(_Rec.dotted(body[0].value))
+    return " ".join(out)
